@@ -39,6 +39,16 @@ claim("C11",
       "assumed, C20's subject); Gillespie's selected-channel-has-positive-propensity arithmetic",
       "DESIGN.md section 6 C11")
 
+claim("C14",
+      "Every definition of the cell-major initial state that reaches Init in both initialize exports derives from the "
+      "species-major input through SpeciesFirstToMeshFirstArray (layout dataflow over all branches); the mode x engine "
+      "decision table (5 modes + unknown x 3 engines, both exports) selects the documented branch; every mode RDScript "
+      "accepts is compared by both exports; local generators and GenerateStochasticDistribution are seeded with `seed`.",
+      "static analysis: vector-layout dataflow on the path-fact engine (VLAY over IDX layouts), concrete evaluation of "
+      "the CompareStr if-chain over the finite mode x engine table, string-table agreement Python <-> C++",
+      "totals, non-negativity, zero-stays-zero, the Poisson law, termination of the redistribution loop",
+      "DESIGN.md section 6 C14")
+
 NOT_YET = {}
 
 def main():
